@@ -11,6 +11,7 @@ request histories: no bound on sizes or values.
 -/
 import GemseoVerif.Lemmas.C14
 import GemseoVerif.Lemmas.C14Count
+import GemseoVerif.Lemmas.C14Session
 
 namespace GV.C14
 open GV GV.C02
@@ -735,6 +736,149 @@ theorem custom_doe_identity (d : DS) (hl : LenOk d) (x : List Rat)
   rw [transform_eq d hl, untransform_eq d hl]
   exact zipWith_round_trip _ _ h
 
+/-! ## 7. Histories: DOEs on a design-space object and a library object that were used before
+
+The design-space *object* keeps the arrays of its last normalisation (bounds, normalisable components,
+mask of the integer components) behind the flag `__norm_data_is_computed` (`CDS` in the model), the
+library object keeps its seed counter and its last samples.  The property quantifies over "all
+dimensions, bounds, mixed types": in particular over a design space whose variables, bounds and types
+are what they are *now*, whatever was done with the object before. -/
+
+/-- A new design-space object (nothing computed yet) satisfies the invariant, whatever its private
+    arrays contain. -/
+theorem new_object_invariant (d : DS) (stale : NormData) :
+    CDS.Inv { ds := d, computed := false, data := stale } := CDS.inv_fresh d stale
+
+/-- **Every public edit keeps the cache honest**: after `add_variable`, `remove_variable`, `filter`,
+    `filter_dimensions`, `rename_variable`, `extend`, `set_lower_bound`, `set_upper_bound`,
+    `set_current_value`, `set_current_variable`, `initialize_missing_current_values` or the switch setter,
+    either the flag is reset or the stored arrays are still those of the variables as they are now
+    (types included: the mask of the integer components is part of the arrays). -/
+theorem edit_keeps_cache_valid (tol : Rat) (c : CDS) (op : Op) (h : c.Inv) :
+    (c.edit tol op).Inv ∧ (c.edit tol op).ds = c.ds.apply tol op :=
+  ⟨CDS.edit_inv tol c op h, rfl⟩
+
+/-- **The cache cannot be observed.**  For every design-space object, every library object and every
+    history of edits, normalisation queries, DOEs (`compute_doe`, `execute`) and new library objects:
+    each output is the output of the cache-free specification, in which every call is a function of
+    the variables as they are at the time of the call; variables, switch and library agree afterwards,
+    and the invariant still holds. -/
+theorem session_refines_spec (tol : Rat) (s : Session) (hs : s.cds.Inv) (ops : List SOp) :
+    (Session.run tol s ops).2 = (Spec.run tol ⟨s.cds.ds, s.lib⟩ ops).2 ∧
+    (Session.run tol s ops).1.cds.ds = (Spec.run tol ⟨s.cds.ds, s.lib⟩ ops).1.ds ∧
+    (Session.run tol s ops).1.lib = (Spec.run tol ⟨s.cds.ds, s.lib⟩ ops).1.lib ∧
+    (Session.run tol s ops).1.cds.Inv := by
+  obtain ⟨⟨h1, h2, h3⟩, h4⟩ := Session.run_sim tol ops s ⟨s.cds.ds, s.lib⟩ ⟨hs, rfl, rfl⟩
+  exact ⟨h4, h2, h3, h1⟩
+
+/-- In the specification the design space only changes through the edits (C02 `DS.apply`): a DOE
+    gives it back as it was (switch restored), a query does not touch it. -/
+theorem spec_design_space (tol : Rat) (ops : List SOp) : ∀ t : Spec,
+    (Spec.run tol t ops).1.ds =
+      DS.run tol t.ds (ops.filterMap (fun o => match o with | .edit op => some op | _ => none)) := by
+  induction ops with
+  | nil => intro t; rfl
+  | cons o ops ih =>
+    intro t
+    simp only [Spec.run]
+    rw [ih]
+    cases o with
+    | edit op => simp [Spec.step, DS.run]
+    | query u => simp [Spec.step]
+    | newLib => simp [Spec.step]
+    | doe exec r =>
+      cases exec
+      · simp [Spec.step, integer_switch_restored]
+      · simp [Spec.step, integer_switch_restored_execute]
+
+/-- **A DOE after any history** is the DOE of a new library state `t.lib` on the variables as they
+    are now (`t.ds` = the initial variables after the edits of the history, `spec_design_space`), and
+    it leaves the variables and the switch as they were. -/
+theorem doe_after_history (tol : Rat) (s : Session) (hs : s.cds.Inv) (ops : List SOp) (exec : Bool) (r : Req) :
+    ((Session.run tol s ops).1.step tol (.doe exec r)).2 =
+      .doe (if exec then preRun (Spec.run tol ⟨s.cds.ds, s.lib⟩ ops).1.ds (Spec.run tol ⟨s.cds.ds, s.lib⟩ ops).1.lib r
+            else computeDoe (Spec.run tol ⟨s.cds.ds, s.lib⟩ ops).1.ds (Spec.run tol ⟨s.cds.ds, s.lib⟩ ops).1.lib r).result ∧
+    ((Session.run tol s ops).1.step tol (.doe exec r)).1.cds.ds = (Spec.run tol ⟨s.cds.ds, s.lib⟩ ops).1.ds := by
+  obtain ⟨hsim, _⟩ := Session.run_sim tol ops s ⟨s.cds.ds, s.lib⟩ ⟨hs, rfl, rfl⟩
+  obtain ⟨⟨_, h2, _⟩, h4⟩ := Session.step_sim tol _ _ hsim (.doe exec r)
+  refine ⟨?_, ?_⟩
+  · rw [h4]
+    cases exec <;> simp [Spec.step]
+  · rw [h2]
+    cases exec
+    · simp [Spec.step, integer_switch_restored]
+    · simp [Spec.step, integer_switch_restored_execute]
+
+/-- `execute` generates what `compute_doe` returns (valid settings, no unit sampling). -/
+theorem execute_generates_compute_doe (d : DS) (lib : Lib) (r : Req) (hu : r.unitSampling = false)
+    (hok : r.settingsOk = true) : (preRun d lib r).result = (computeDoe d lib r).result := by
+  show (preRunBody (enter d (!d.intNorm)) lib r).2 = (computeBody (enter d (!r.unitSampling && !d.intNorm)) lib r).2
+  rw [hu]
+  simp only [Bool.not_false, Bool.true_and]
+  unfold preRunBody computeBody
+  rw [hu, hok]
+  simp only [Bool.not_false, Bool.true_and, Bool.not_true, Bool.false_eq_true, if_false]
+  split_ifs
+  · rfl
+  · rcases generate (enter d (!d.intNorm)) lib r with ⟨lib1, res⟩
+    cases res <;> rfl
+
+/-- **Bounds and types after any history** (the clause "points inside the bounds, with integer
+    variables taking integer values, in the design space's variable order" on a used and edited
+    object).  If the variables as they are now form a bounded design space `d` and the sampler returns
+    points of `[0,1]^dim d`, a successful `compute_doe` or `execute` returns only points of the right
+    dimension inside the bounds of `d`, and component `i` of each point lies within the bounds of
+    component `i` of `d` (in the variable order of `d`) and is an integer when that component belongs to
+    an integer variable of `d`. -/
+theorem doe_after_history_in_bounds (tol : Rat) (s : Session) (hs : s.cds.Inv) (ops : List SOp)
+    (exec : Bool) (r : Req) (xs : Matrix) (d : DS)
+    (hd : (Spec.run tol ⟨s.cds.ds, s.lib⟩ ops).1.ds = d) (hb : boundedOk d = true)
+    (hu : r.unitSampling = false) (hc : r.custom = false) (hok : r.settingsOk = true)
+    (hsam : ∀ k m, r.sampler k = some m → ∀ row ∈ m, row.length = d.dimension ∧ InUnit row)
+    (h : ((Session.run tol s ops).1.step tol (.doe exec r)).2 = .doe (.ok xs)) :
+    ∀ x ∈ xs, x.length = d.dimension ∧ d.isMember 0 x = true ∧
+      ∀ (i : Nat) (c : Comp) (xi : Rat), (comps d)[i]? = some c → x[i]? = some xi →
+        ∃ l ub : Rat, c.2.1 = some l ∧ c.2.2 = some ub ∧ l ≤ xi ∧ xi ≤ ub ∧
+          (c.1 = true → isIntegral xi = true) := by
+  have h0 := (doe_after_history tol s hs ops exec r).1
+  rw [h, hd] at h0
+  have hres : (computeDoe d (Spec.run tol ⟨s.cds.ds, s.lib⟩ ops).1.lib r).result = .ok xs := by
+    cases exec
+    · simp only [Bool.false_eq_true, if_false, SOut.doe.injEq] at h0
+      exact h0.symm
+    · simp only [if_true, SOut.doe.injEq] at h0
+      rw [← execute_generates_compute_doe d _ r hu hok]
+      exact h0.symm
+  obtain ⟨lib1, us, hg, rfl⟩ := samples_are_image_of_unit_samples d _ r xs hu hres
+  obtain ⟨eff, m, hm, hus, _⟩ := generate_ok _ _ r lib1 us hg
+  rw [hc] at hus
+  simp only [Bool.false_eq_true, if_false] at hus
+  subst hus
+  intro x hx
+  obtain ⟨row, hrow, rfl⟩ := List.mem_map.mp hx
+  obtain ⟨h1, h2⟩ := hsam eff us hm row hrow
+  obtain ⟨a, b⟩ := untransform_in_bounds d hb row h1 h2
+  refine ⟨a, b, ?_⟩
+  intro i c xi hci hxi
+  obtain ⟨l, ub, e1, e2, e3, e4, e5⟩ := integers_integral_and_in_bounds d hb row h2 i c xi hci hxi
+  exact ⟨l, ub, e1, e2, e3, e4, fun hh => (e5 hh).1⟩
+
+/-- **Same algorithm, settings and seed ⇒ same samples, whatever the two histories** — of the
+    design-space objects (earlier DOEs, queries that filled the cache, edits) and of the library
+    objects (seed counters, earlier results) — as soon as the variables are the same now.  The seed is
+    explicit (any integer: `0` is a seed like any other) or the algorithm does not use one. -/
+theorem doe_history_independent (tol : Rat) (s1 s2 : Session) (h1 : s1.cds.Inv) (h2 : s2.cds.Inv)
+    (ops1 ops2 : List SOp) (exec : Bool) (r : Req) (hseed : r.usesSeed = false ∨ ∃ k, r.seed = some k)
+    (hsame : (Spec.run tol ⟨s1.cds.ds, s1.lib⟩ ops1).1.ds = (Spec.run tol ⟨s2.cds.ds, s2.lib⟩ ops2).1.ds) :
+    ((Session.run tol s1 ops1).1.step tol (.doe exec r)).2 =
+    ((Session.run tol s2 ops2).1.step tol (.doe exec r)).2 := by
+  rw [(doe_after_history tol s1 h1 ops1 exec r).1, (doe_after_history tol s2 h2 ops2 exec r).1, hsame]
+  obtain ⟨a, b⟩ := seed_determinism (Spec.run tol ⟨s2.cds.ds, s2.lib⟩ ops2).1.ds
+    (Spec.run tol ⟨s1.cds.ds, s1.lib⟩ ops1).1.lib (Spec.run tol ⟨s2.cds.ds, s2.lib⟩ ops2).1.lib r hseed
+  cases exec
+  · simp only [Bool.false_eq_true, if_false]; rw [a]
+  · simp only [if_true]; rw [b]
+
 /-! ## Non-vacuity -/
 
 def exDS : DS :=
@@ -788,5 +932,30 @@ example : List.Forall₂ ValidComp (comps exDS) [5, -2, 3, 3/4] := by
     · intro l hl; cases hl; decide +kernel
     · intro u hu; cases hu; decide +kernel
     · intro hb; first | decide +kernel | exact absurd hb (by decide)
+
+-- section 7: the history "DOE, remove the float variable x, add the float variable z, DOE" on the
+-- object (x float, n integer): same dimension, the integer component moves from column 1 to column 0;
+-- the explicit seed 0 reaches the sampler both times (second sample 1/(0+2)), the counter plays no role
+def exObj : Session :=
+  { cds := { ds := { vars := [⟨"x", false, [some (-1)], [some 4], none⟩, ⟨"n", true, [some 2], [some 9], none⟩] } } }
+def exReq2 : Req := { usesSeed := true, seed := some 0, sampler := fun k => some [[1/4, 3/4], [(1 : Rat) / (k + 2), 1/8]] }
+def exHist : List SOp :=
+  [.doe false exReq2, .edit (.remove "x"), .edit (.add ⟨"z", false, [some (-3)], [some 5], none⟩), .doe true exReq2]
+example : CDS.Inv exObj.cds := new_object_invariant _ _
+example : (Session.run 0 exObj exHist).2 =
+    [.doe (.ok [[1/4, 7], [3/2, 3]]), .none, .none, .doe (.ok [[4, 3], [6, -2]])] := by decide +kernel
+example : (Session.run 0 exObj exHist).1.cds.ds.names = ["n", "z"] ∧
+    (Session.run 0 exObj exHist).1.lib.seeder.defaultSeed = 2 ∧
+    (Session.run 0 exObj exHist).1.lib.samples = [[4, 3], [6, -2]] := by decide +kernel
+-- a state in which the flag is set and the stored arrays matter: the user had enabled the switch, so a
+-- DOE leaves the cache filled; `rename_variable` keeps it, `set_upper_bound` resets it
+def exObj1 : Session := { exObj with cds := { exObj.cds with ds := exObj.cds.ds.setIntNorm true } }
+example : (Session.run 0 exObj1 [.doe false exReq2, .edit (.rename "x" "w")]).1.cds.computed = true ∧
+    (Session.run 0 exObj1 [.doe false exReq2, .edit (.rename "x" "w")]).1.cds.data.intMask = [false, true] ∧
+    (Session.run 0 exObj1 [.doe false exReq2, .edit (.setUb "n" [some 12])]).1.cds.computed = false := by
+  decide +kernel
+example : (Session.run 0 exObj1 [.doe false exReq2, .edit (.setUb "n" [some 12]), .query [1/2, 1/2], .doe false exReq2]).2
+    = [.doe (.ok [[1/4, 7], [3/2, 3]]), .none, .vec [3/2, 7], .doe (.ok [[1/4, 10], [3/2, 3]])] := by decide +kernel
+example : boundedOk (Spec.run 0 ⟨exObj.cds.ds, exObj.lib⟩ (exHist.take 3)).1.ds = true := by decide +kernel
 
 end GV.C14
